@@ -75,7 +75,7 @@ def rdText (data : Bytes) (names : List String) (ops : List ROp) : String :=
       | .error _ => [nm ++ "=fault"]
       | .ok (v, r) =>
         match v with
-        | .none => [nm ++ "=none:"]
+        | .none => (nm ++ "=none:" ++ toString r.length) :: go r nms ops
         | .num n => (nm ++ "=" ++ toString n ++ ":" ++ toString r.length) :: go r nms ops
         | .octets b => (nm ++ "=" ++ hex b ++ ":" ++ toString r.length) :: go r nms ops
         | .unit => (nm ++ "=ok:" ++ toString r.length) :: go r nms ops
@@ -236,7 +236,7 @@ def run (f : List String) : Option String :=
             | .ok m r' => (renderMsg m ++ "@" ++ toString (r.length - r'.length)) :: go fuel r'
             | .err es _ => ["err" ++ renderErrs es]
             | .fault f => [renderFault f]
-        "enc=" ++ hex buf ++ " dec=" ++ "|".intercalate (go 64 buf))
+        "enc=" ++ hex buf ++ " dec=" ++ "|".intercalate (go 4096 buf))
   | ["cat", rs] => do
     let recs ← (rs.splitOn "|").mapM unhex
     some (showAvps (avps recs.flatten))
